@@ -42,7 +42,12 @@ pub fn check_case(rep: &mut Report, rf: &Ref, ast: &RuleAst, text: &str, rule: &
     rep.count(&format!("engine.{}", ["false", "true", "missing"].get(got3 as usize).unwrap_or(&"?")));
     let dec = refi::verdict(exp);
     match dec {
-        None => rep.count("undecided_by_reference"),
+        None => {
+            rep.count("undecided_by_reference");
+            if std::env::var("TMON_UNDECIDED").is_ok() && rep.get("undecided_by_reference") % 97 == 0 {
+                eprintln!("UNDECIDED {} :: {} :: {}", refi::ts_name(exp), text.replace('\n', " | "), doc.to_json_text());
+            }
+        }
         Some(want) => {
             rep.count("decisive");
             rep.nontrivial_key(&format!("{}|{}|{}", tagk, gen::doc_kinds(doc), want));
